@@ -7,3 +7,4 @@ import Theorems.C02
 #print axioms C02.syndrome_table_entry
 #print axioms C02.syndrome_decoder_instances
 #print axioms C02.hamming_inverse_corrects
+#print axioms C02.ml_corrects_large
